@@ -1,7 +1,8 @@
 //! Native replay for C39 counterexample classes: validate_txs on real fixture sequences.
 //! Scenario A: [valid tx with certificates, tx that fails] -> Err and certificate state unchanged.
 //! Scenario B: [valid tx with certificates] -> Ok and certificate state carries its effects.
-//! Scenario C: a single tx that fails after its first certificate was applied -> state unchanged.
+//! Scenario C: a single tx whose first certificate fails -> state unchanged.
+//! Scenario D: a single tx that fails after its first certificate was applied (delegation to an unregistered pool) -> state unchanged.
 #[path = "/repo/pallas-validate/tests/common.rs"]
 pub mod common;
 use common::*;
@@ -112,6 +113,14 @@ fn c39_err_leaves_state_unchanged_and_ok_applies_in_order() {
     let r = validate_txs(&[metx2], &env, &utxos2, &mut cs);
     assert!(r.is_err());
     assert_eq!(summary(&cs), before, "a failing transaction must leave the caller's certificate state unchanged");
+
+    // D: one tx whose first certificate (stake registration) is applied and whose second (delegation to a pool that is
+    // not registered: empty entry state) is rejected: the caller's state must not show the registration
+    let mut cs = CertState::default();
+    let before_d = summary(&cs);
+    let r = validate_txs(&[metx.clone()], &env, &utxos, &mut cs);
+    assert!(r.is_err(), "delegation to an unregistered pool must be rejected");
+    assert_eq!(summary(&cs), before_d, "a transaction that fails after its first certificate must leave the caller's certificate state unchanged");
 
     // A': [valid, failing]: first applies, second fails -> unchanged
     let mut cs = entry_state();
